@@ -12,6 +12,7 @@ import common, replay
 from rustdefs import RustDefs
 import os
 print(common.mir_dump())
+print(common.reflex_dump())
 replay.write_generated({})
 print(replay.build())
 PY
